@@ -113,10 +113,11 @@ CLAIMED = {
         note='Narrow: outside are the BASIC loader and the loading of the loader block itself (ROM interpreter), edge-level loading, --clear, loading screens, the 128K bank loader, PZX output, interrupts while the loader runs, and binaries/stacks overlapping 23296-23319.',
         design='4 (C12)', technique=TECH + '; the emitted machine code is executed symbolically by the real simulator'),
     'C18': dict(
-        text='skool2asm only: the real SkoolParser + AsmWriter convert a corpus of 3 skool entries (long unbreakable words, multi-instruction comment groups, registers, paragraphs, end comments, operations wider than the instruction field) with a symbolic '
+        text='skool2asm and sna2skool (not skool2html): the real SkoolParser + AsmWriter convert a corpus of 4 skool entries (long unbreakable words, multi-instruction comment groups, registers, paragraphs, end comments, operations wider than the instruction field) with a symbolic '
              'line width 40..200 (and comment-width-min 1..40; instruction-width 5..40 enumerated). Each path stands for all widths that wrap identically: the emitted words equal the source words in order, every instruction appears once, and z3 shows '
-             'for every output line len(line) <= line_width over the whole width set of the path, unless the line holds a single unbreakable item (word, or an instruction field leaving fewer than comment-width-min columns), with a warning for instruction lines.',
-        note='Narrow: the bound is the corpus; skool2html, the skool file written by sna2skool, tables/lists and tab/CRLF settings are outside.',
+             'for every output line len(line) <= line_width over the whole width set of the path, unless the line holds a single unbreakable item (word, or an instruction field leaving fewer than comment-width-min columns), with a warning for instruction lines. The real CtlParser + SkoolWriter write two annotated control files as skool files '
+             'with a symbolic line width 40..200: every word of the control file appears in order, and no line longer than the width holds more than one word.',
+        note='Narrow: the bound is the corpus; skool2html, tables/lists and tab/CRLF settings are outside.',
         design='4 (C18)', technique=TECH + '; symbolic width parameters through the real text wrapper'),
     'C13': dict(
         text='Accelerator arithmetic only. LoadTracer.dec_a is shown equal to the DEC A: JR/JP NZ loop it replaces by induction over A from an arbitrary state (accelerated(S) == accelerated(real iteration(S)) when the loop repeats, == the real instructions '
